@@ -18,12 +18,15 @@ var (
 )
 
 // verifV4Server: server over one pool 10.0.0.0/29 (gateway .1, usable .2-.6), zero-value loader (no eBPF maps loaded).
+var vV4Usable int // usable addresses of the pool under test
+
 func verifV4Server() (*Server, *Pool) {
 	network := &net.IPNet{IP: net.IP{10, 0, 0, 0}, Mask: net.CIDRMask(29, 32)}
 	p := &Pool{ID: 1, Name: "p", Network: network, Gateway: net.IP{10, 0, 0, 1}, SubnetMask: network.Mask,
 		DNSServers: []net.IP{{10, 0, 0, 53}}, LeaseTime: time.Hour, ClientClass: ClientClassResidential,
 		allocated: map[string]net.IP{}, unavailable: map[string]struct{}{}}
 	p.available = p.generateAvailableIPs(0, 0)
+	vV4Usable = len(p.available)
 	pm := NewPoolManager(nil, zap.NewNop())
 	pm.pools[1] = p
 	pm.defaultPoolID = 1
@@ -56,6 +59,11 @@ func verifV4Invariant(s *Server, p *Pool) {
 		for j := i + 1; j < len(all); j++ {
 			vAssert(!all[i].Equal(all[j]), "one address is in the pool twice (two holders, or held and free)")
 		}
+	}
+	// conservation: every usable address is free, assigned or quarantined - none vanished
+	vAssert(len(p.available)+len(p.allocated)+len(p.unavailable) >= vV4Usable, "an address vanished from the pool (neither free, assigned nor quarantined)")
+	if vParam("conservation", 0) == 1 {
+		return
 	}
 	now := time.Now()
 	for mac, l := range s.leases {
@@ -112,7 +120,8 @@ func verifV4AnyState(s *Server, p *Pool) {
 		ip, err := p.Allocate(vMACs[i])
 		vAssume(err == nil)
 		if st >= 2 {
-			l := &Lease{MAC: vMACs[i], IP: ip, PoolID: p.ID, SessionID: "sess", SessionStart: now}
+			// the session started some arbitrary time before now
+			l := &Lease{MAC: vMACs[i], IP: ip, PoolID: p.ID, SessionID: "sess", SessionStart: now.Add(-ndDuration("session-age"))}
 			if st == 2 {
 				l.ExpiresAt = now.Add(ndDuration("remaining") + 1)
 			} else {
@@ -200,7 +209,8 @@ func VerifC02_V4Step() {
 		resp, err = s.handleInform(req)
 	}
 	vRunPending()
-	if err == nil && resp != nil && (resp.MessageType() == dhcpv4.MessageTypeOffer || (resp.MessageType() == dhcpv4.MessageTypeAck && t == dhcpv4.MessageTypeRequest)) {
+	// (registered under C05 with conservation=1: only the pool/lease invariant incl. conservation is asserted there)
+	if vParam("conservation", 0) == 0 && err == nil && resp != nil && (resp.MessageType() == dhcpv4.MessageTypeOffer || (resp.MessageType() == dhcpv4.MessageTypeAck && t == dhcpv4.MessageTypeRequest)) {
 		y := resp.YourIPAddr
 		vAssert(verifV4Usable(p, y), "OFFER/ACK for an address outside the pool or for the gateway/network/broadcast address")
 		for other, ip := range p.allocated {
@@ -213,6 +223,12 @@ func VerifC02_V4Step() {
 		}
 		_, bad := p.unavailable[y.String()]
 		vAssert(!bad, "a declined address was offered again")
+		if resp.MessageType() == dhcpv4.MessageTypeAck {
+			// the binding the server keeps lasts as long as the lease it just acknowledged
+			if l, ok := s.leases[mac]; ok {
+				vAssert(l.ExpiresAt.Sub(time.Now()) >= p.LeaseTime, "the server's own expiry of an acknowledged lease is earlier than the lease time it announced (the address can be given away inside the lease)")
+			}
+		}
 	}
 	if t == dhcpv4.MessageTypeRelease && held != nil {
 		_, still := p.allocated[mac]
